@@ -12,6 +12,7 @@ mod c03;
 mod c01;
 mod enc;
 mod c08;
+mod c10;
 mod c02;
 
 pub struct Out {
@@ -77,6 +78,7 @@ fn main() {
             match prop {
                 "C19" => c19::gen(seed, n, &mut out),
                 "C08" | "C09" => c08::gen(prop, seed, n, &mut out),
+                "C10" | "C11" => c10::gen(prop, seed, n, &mut out),
                 "C01" => c01::gen(seed, n, &mut out),
                 "C02" => c02::gen(seed, n, &mut out),
                 "C03" => c03::gen(seed, n, &mut out),
